@@ -75,7 +75,7 @@ pub fn generate(seed: u64, index: u64, thorough: bool) -> Scenario {
             allow_extreme: false,
             p_fit: 0.0,
             allow_clone: false,
-            allow_into_seq: false,
+            allow_into_seq: true,
             allow_band: false,
         },
     );
@@ -573,6 +573,17 @@ fn exec_t<T: Sc, F: Factory<T>>(sc: &Scenario) -> RunReport {
         if let Some(p) = &r.build_panic {
             rep.violate(sc, "PANIC", &format!("build{who}@{}", panic_site(p)), p.clone());
         }
+    }
+    // the twins are both well-formed problems: build() must treat them alike
+    if ra.build_panic.is_none() && rb.build_panic.is_none() && ra.build.is_ok() != rb.build.is_ok() {
+        let show = |r: &Result<(), String>| match r {
+            Ok(()) => "Ok".to_string(),
+            Err(e) => format!("Err({e})"),
+        };
+        rep.violate(sc, class, "build/outcome", format!("build() of the weighted problem: {}, of its twin: {}", show(&ra.build), show(&rb.build)));
+    }
+    if ra.build.is_ok() && rb.build.is_ok() {
+        rep.probe("both_twins_built");
     }
     let mut c = Cmp {
         bitwise: true,
